@@ -406,7 +406,66 @@ def main_cli(V, config, sysc, memm):
     return cl
 
 
-FUNCS = {"internal_default": internal_default, "main_cli": main_cli, "read_config": read_config, "vela_config": vela_config, "sections_missing": sections_missing, "cli_binding": cli_binding}
+def exit_status(V):
+    """`python -m ethosu.vela` reports main()'s status to the caller: the package's __main__ module is executed (runpy) with vela.main replaced by
+    a stub returning a SYMBOLIC status; the process exit status (SystemExit code, 0 when the module just ends) must equal it - an error that
+    main() turns into status 1 must not end as a successful process."""
+    import runpy
+    import sys
+    import ethosu.vela.vela as vela
+
+    r = V.int("main_status", 0, 255)
+    saved = vela.main
+    saved_mod = sys.modules.pop("ethosu.vela.__main__", None)
+    vela.main = lambda *a, **k: r
+    code = 0
+    try:
+        runpy.run_module("ethosu.vela.__main__", run_name="__main__", alter_sys=False)
+    except SystemExit as e:
+        code = 0 if e.code is None else e.code
+    finally:
+        vela.main = saved
+        sys.modules.pop("ethosu.vela.__main__", None)
+        if saved_mod is not None:
+            sys.modules["ethosu.vela.__main__"] = saved_mod
+    if not isinstance(code, (int, SInt)):
+        return [("the exit status is main()'s status", False)]
+    return [("the exit status of `python -m ethosu.vela` is main()'s status", L(code) == L(r))]
+
+
+def config_listing(V):
+    """--list-config-files offers exactly the files that --config looks up in the bundled configuration directory (names of the form Dir/file.ini,
+    OPTIONS.md).  The real list_config_files() with the real glob on a scratch directory tree whose candidate files (depth 1, 2, 3; other
+    extensions) exist or not according to free Booleans (every combination is explored)."""
+    import contextlib
+    import io
+    import os
+    import shutil
+    import tempfile
+    import ethosu.vela.vela as vela
+
+    cands = ["stray.ini", "Arm/vela.ini", "Vendor/board.ini", "Vendor/notes.txt", "Vendor/Board/deep.ini"]
+    exists = [bool(V.bool("exists_%s" % c.replace("/", "_").replace(".", "_"))) for c in cands]
+    d = tempfile.mkdtemp(prefix="c18_cfg_")
+    saved = vela.CONFIG_FILES_PATH
+    buf = io.StringIO()
+    try:
+        for c, e in zip(cands, exists):
+            if e:
+                os.makedirs(os.path.dirname(os.path.join(d, c)), exist_ok=True)
+                open(os.path.join(d, c), "w").close()
+        vela.CONFIG_FILES_PATH = d
+        with contextlib.redirect_stdout(buf):
+            vela.list_config_files()
+    finally:
+        vela.CONFIG_FILES_PATH = saved
+        shutil.rmtree(d, ignore_errors=True)
+    listed = sorted(os.path.normpath(ln.strip()) for ln in buf.getvalue().splitlines()[1:] if ln.strip())
+    want = sorted(os.path.normpath(c) for c, e in zip(cands, exists) if e and c.endswith(".ini") and len(c.split("/")) == 2)
+    return [("the listing names exactly the bundled Dir/file.ini files (what --config resolves in the bundled directory)", listed == want)]
+
+
+FUNCS = {"exit_status": exit_status, "config_listing": config_listing, "internal_default": internal_default, "main_cli": main_cli, "read_config": read_config, "vela_config": vela_config, "sections_missing": sections_missing, "cli_binding": cli_binding}
 
 
 def instances(tier, seed):
@@ -423,6 +482,8 @@ def instances(tier, seed):
         for which in ("sys_missing", "mem_missing", "sys_default", "mem_default"):
             out.append(dict(key="sections_missing/%s/%s" % (accel, which), fn="sections_missing", params=dict(which=which, accel=accel)))
     out.append(dict(key="cli_binding", fn="cli_binding", params={}))
+    out.append(dict(key="exit_status", fn="exit_status", params={}))
+    out.append(dict(key="config_listing", fn="config_listing", params={}))
     for config in (None, "Arm/vela.ini", "/abs/dir/my.ini", "../other/dir/my.ini", "my.ini"):
         for sysc in (None, "Ethos_U65_High_End"):
             for memm in (None, "Dedicated_Sram"):
